@@ -17,6 +17,7 @@ use vcheck::gens::mpq::*;
 use vcheck::oracle::refcrypt as rc;
 
 mod engb;
+mod nest;
 mod seeds;
 
 #[global_allocator]
@@ -40,6 +41,16 @@ enum Mutation {
     Havoc(u64),
     /// replace the whole input by seeded garbage of this length (keeps the first 4 bytes = magic)
     Garbage { len: usize, seed: u64, keep_magic: bool },
+    /// deep nesting: `depth` chunk headers (`ids` cycled, as stored on disk), each one containing exactly the next,
+    /// placed behind the seed's leading chunk or appended to the payload of a container chunk (module `nest`)
+    /// `pad`: zero bytes between a header and the next one (fixed header of containers such as MCNK / MOGP)
+    Nest {
+        ids: Vec<String>,
+        depth: usize,
+        #[serde(default)]
+        pad: usize,
+        place: nest::Place,
+    },
     /// the input itself, hex-encoded, independent of any seed (`Case::seed` = usize::MAX): libFuzzer
     /// artifacts of engine B are wrapped into this so that replay files stay self-contained
     Raw { hex: String },
@@ -408,6 +419,7 @@ fn apply(seed: &[u8], m: &Mutation) -> Vec<u8> {
             }
         }
         Mutation::Raw { hex } => b = hex::decode(hex).unwrap_or_default(),
+        Mutation::Nest { ids, depth, pad, place } => b = nest::apply(seed, ids, *depth, *pad, place),
         Mutation::Garbage { len, seed, keep_magic } => {
             let mut s = *seed;
             let magic: Vec<u8> = b.iter().take(4).cloned().collect();
@@ -640,7 +652,22 @@ fn worker() -> ! {
         eprintln!("CASE {} {} len={}", c.format, c.seed, input.len());
         let single = (64usize << 20).max(256 * input.len());
         supervise::set_alloc_limits(single, 1 << 30);
-        let r = engine::guard(&c.format, || run_target(&c.format, &input, &dir));
+        let r = if matches!(c.m, Mutation::Nest { .. }) {
+            // deep-nesting cases are judged on the stack every `std::thread::spawn` / rayon / tokio caller hands the
+            // parser (Rust's default of 2 MiB), not on the 8 MiB of a main thread: 120 000 levels then overflow
+            // with any frame above 17 bytes, 20 000 levels with frames above 104 bytes
+            std::thread::scope(|sc| {
+                std::thread::Builder::new()
+                    .name("c05-nest-default-2MiB-stack".into())
+                    .stack_size(nest::THREAD_STACK)
+                    .spawn_scoped(sc, || engine::guard(&c.format, || run_target(&c.format, &input, &dir)))
+                    .expect("spawn nest thread")
+                    .join()
+                    .unwrap_or_else(|_| Err(Fail::new(format!("panic@{}:?:?", c.format), "nest thread panicked outside the guard")))
+            })
+        } else {
+            engine::guard(&c.format, || run_target(&c.format, &input, &dir))
+        };
         supervise::clear_alloc_limits();
         match r {
             Ok(class) => json!({"class": class, "len": input.len(), "peak": supervise::peak_single()}),
@@ -707,7 +734,10 @@ fn main() {
         "valid seeds (8 MPQ archives V1..V4 with attributes/encryption/compressed tables, one of them carrying a hand-written CRC32|PATCH_BIT (attributes) file; 160 hand-encoded (attributes) files = block counts {0,1,3,7,8,9,64} × all 16 flag sets plus the accepted one-byte-short patch-bit variants, given to Attributes::parse as [block_count u16][data] with every per-block accessor touched; \
          9 (listfile) texts (LF, CRLF, `;`, BOM, empty lines/comments, 20 KB line, invalid UTF-8, NUL); COPY and BSD0 patch files, compressed streams for 11 method bytes, and 3..10 files each for M2, skin, anim, ADT, WMO root/group, BLP, DBC, WDT, WDL built with the crates' own writers) × deterministic structured mutation: \
          (i) prefixes (every length below 96, strided above, chunk boundaries ±1; every length for (attributes) files, so 'ideal size − 1' and '− 2' with PATCH_BIT are hit by construction); (ii) boundary values {0, 1, 2^31−1, 2^31, 2^32−1, len−1, len, len+1, old±1, …} as u16/u32/u64 at aligned offsets of the head region and sampled offsets beyond, and inside decrypted hash/block/HET/BET tables of MPQ archives (decrypt → substitute → re-encrypt); \
-         (iii) chunk delete / duplicate / swap / size ±1, ±8, 0xFFFFFFFF for chunked formats; (iv) seeded havoc (1–8 flips, inserts, deletes, block copies, boundary dwords) and garbage with/without the magic. Each case runs every public entry point of its format in a supervised worker with a tracking allocator \
+         (iii) chunk delete / duplicate / swap / size ±1, ±8, 0xFFFFFFFF for chunked formats; \
+         (iii-b) deep nesting for the chunked families (ADT, WMO root/group, WDT, WDL, chunked M2; one host seed per chunk layout): the leading chunk of the seed followed by 20 000 / 120 000 nested headers of one id with sizes 8·(n−1) … 8, 0 (each container holds exactly the next; 160 KB / 960 KB), without and with the rest of the seed behind it, and the same nest appended to the sub-chunk sequence of each container chunk of the seed (MCNK, MOGP; size fixed up; a container with a fixed header before its sub-chunks is also nested in itself with that header at every level, ≤ 4 MiB), \
+         for every id of a run-time dictionary = all four-character tokens over [A-Z0-9_ ] in the source files of the crate under test (identifiers, string / byte-string literals, byte arrays, hex constants, comments; the directory the harness' path dependency points at, or VERIF_REPO) ∪ the chunk and sub-chunk ids of the seeds, each in both byte orders, plus seeded random nests (1–3 ids cycled, 2^10…2^17 levels, any placement); these cases run on a thread with Rust's default 2 MiB stack (what std::thread / rayon / tokio callers give a parser; 120 000 levels overflow it with any frame above 17 bytes), a stack overflow there is signed process-stack-overflow@<family>:nested-chunks; class = family × nest-<placement>-<depth class> × outcome; \
+         (iv) seeded havoc (1–8 flips, inserts, deletes, block copies, boundary dwords) and garbage with/without the magic. Each case runs every public entry point of its format in a supervised worker with a tracking allocator \
          (one request > max(64 MiB, 256×input) or live > 1 GiB ⇒ violation), a 10 CPU-second budget, and panic capture. non-trivial = the mutated input got past the first validation layer (result Ok, or an error after a first stage succeeded); distinct = format × mutator × outcome class. \
          Engine B (when /verif/fuzz/run.sh exists and VERIF_C05_FUZZ != 0): one libFuzzer target per family calling the same entry points, two fixed-work campaigns each (seed corpus = the valid seeds above; empty corpus) with -len_control=0 -max_len=64 KiB (mpq 256 KiB) -timeout=10 -malloc_limit_mb=256 -rss_limit_mb=3072 and -seed derived from VERIF_SEED; \
          quick = 15 k…400 k runs per campaign (smoke depth), thorough = 350 k…5 M; each campaign is one evaluated class `fuzz:<target>[:empty]:campaign`, non-trivial when libFuzzer reports > 50 covered edges; every artifact is one more evaluated case, judged by the same worker",
@@ -794,10 +824,37 @@ fn main() {
             check.inconclusive("essential class empty: PATCH_BIT (attributes) seeds truncated by one and two bytes");
         }
     }
+    // deep nesting of every chunk id the crate under test spells in its sources (module `nest`): by construction,
+    // per chunked family, dictionary × {20 000, 120 000 levels} × {behind the leading chunk, + rest of the seed,
+    // inside each container of the seed}
+    {
+        let (nested, report, source_ids) = nest::cases(&seeds, check.tier, check.sub_seed("c05-mut"));
+        for f in nest::EXPECTED_HOSTS {
+            let n = report[f]["cases"].as_u64().unwrap_or(0);
+            check.bump(&format!("nest:cases:{f}"), n);
+            if n == 0 {
+                check.inconclusive(&format!("essential class empty: no deep-nesting case for chunked family {f}"));
+            }
+            if source_ids.get(f).copied().unwrap_or(0) == 0 {
+                check.inconclusive(&format!(
+                    "deep-nesting dictionary of family {f}: no chunk id found in the sources under {} (set VERIF_REPO to the tree under test)",
+                    report[f]["scan_dir"].as_str().unwrap_or("?")
+                ));
+            }
+        }
+        check.set_extra("nest", report);
+        cases.extend(nested);
+    }
     let vals: Vec<Value> = cases.iter().map(|c| serde_json::to_value(c).unwrap()).collect();
     let outs = supervise::run_cases(&spec, &vals, engine::WORKERS);
+    let mut nest_outcomes: std::collections::BTreeMap<String, u64> = Default::default();
     for (c, o) in cases.iter().zip(outs.iter()) {
+        let nest_label;
         let mk = match &c.m {
+            Mutation::Nest { depth, pad, place, .. } => {
+                nest_label = nest::label(*depth, *pad, place, seeds.get(c.seed).and_then(|s| nest::container_name(&s.bytes, place)).as_deref());
+                nest_label.as_str()
+            }
             Mutation::None => "intact",
             Mutation::Prefix(_) => "prefix",
             Mutation::Subst { .. } => "subst",
@@ -813,6 +870,12 @@ fn main() {
             Ok(class) => {
                 let nt = class == "ok" || class.contains(';');
                 check.count(&format!("{}:{mk}:{class}", c.format), nt);
+                if matches!(c.m, Mutation::Nest { .. }) {
+                    *nest_outcomes.entry(format!("{}:{mk}:{class}", c.format)).or_default() += 1;
+                    if nt {
+                        check.bump(&format!("nest:accepted:{}", c.format), 1);
+                    }
+                }
                 if nt {
                     check.sample(&format!("{}{mk}", c.format), || json!({"format": c.format, "seed": seeds[c.seed].name, "mutation": c.m, "outcome": class}));
                 }
@@ -821,11 +884,15 @@ fn main() {
                 }
             }
             Err(f) => {
+                if matches!(c.m, Mutation::Nest { .. }) {
+                    *nest_outcomes.entry(format!("{}:{mk}:VIOLATION", c.format)).or_default() += 1;
+                }
                 check.count(&format!("{}:{mk}:VIOLATION", c.format), true);
                 check.fail(&f, serde_json::to_value(c).unwrap());
             }
         }
     }
+    check.set_extra("nest_outcomes", json!(nest_outcomes));
     // engine B: coverage-guided campaigns over the same targets; artifacts are judged by the worker above
     if engb::enabled() {
         engb::run(&check, &spec);
@@ -879,6 +946,9 @@ fn judge(c: &Case, o: &Outcome) -> Result<String, Fail> {
         Outcome::Died { how, stderr_tail } => {
             let what = if how == "alloc-limit" {
                 format!("huge-allocation@{}:{}", c.format, frame_of(stderr_tail))
+            } else if matches!(c.m, Mutation::Nest { .. }) && matches!(how.as_str(), "stack-overflow" | "segv" | "abort") {
+                // the defect is the parser family's walk over nested chunks, whatever id made it descend
+                format!("process-{how}@{}:nested-chunks", c.format)
             } else {
                 format!("process-{how}@{}", c.format)
             };
